@@ -54,8 +54,8 @@ def _stages(tier):
     th = tier == 'thorough'
     lit_args = lambda fs: dict(maxlen=LIT_MAXLEN, block=LIT_BLOCK, fsample=fs)   # noqa: E731
     st = []
-    for flv, rt, dual, fs, lr in (('asan', 20000 if th else 1200, 8000 if th else 500, 2 if th else 12, 2000 if th else 100),
-                                  ('opt', 300000 if th else 15000, 150000 if th else 6000, 1 if th else 3, 20000 if th else 1000)):
+    for flv, rt, dual, fs, lr in (('asan', 20000 if th else 2000, 8000 if th else 800, 2 if th else 12, 2000 if th else 150),
+                                  ('opt', 300000 if th else 25000, 150000 if th else 10000, 1 if th else 3, 20000 if th else 1500)):
         st.append(dict(name='rt-' + flv, harness='h_io12', flavour=flv, cases=rt, sub='rt'))
         st.append(dict(name='dual-' + flv, harness='h_io12', flavour=flv, cases=dual, sub='dual'))
         st.append(dict(name='lit-' + flv, harness='h_io12', flavour=flv, cases=NBLOCKS, sub='lit', args=lit_args(fs)))
